@@ -1284,6 +1284,7 @@ func compileExpr(context *funcContext, reg int, expr ast.Expr, ec *expcontext) i
 			raiseCompileError(context, sline(ex), "cannot use '...' outside a vararg function")
 		}
 		context.Proto.IsVarArg &= ^VarArgNeedsArg
+		checkResultRegisters(context, sreg, ec.varargopt+1, sline(ex))
 		code.AddABC(OP_VARARG, sreg, 2+ec.varargopt, 0, sline(ex))
 		if context.RegTop() > (sreg+2+ec.varargopt) || ec.varargopt < -1 {
 			return 0
@@ -1798,6 +1799,16 @@ func compileLogicalOpExprAux(context *funcContext, reg int, expr ast.Expr, ec *e
 	code.AddASbx(OP_JMP, 0, jumplabel, sline(expr))
 } // }}}
 
+// checkResultRegisters is called before a CALL or VARARG that delivers n values to R(a)..R(a+n-1)
+// is emitted. patchCode finds the registers a function needs in the operands of its instructions,
+// but the 9-bit count operand wraps around at 511 values: the registers are checked here, while
+// the number is still whole.
+func checkResultRegisters(context *funcContext, a, n int, line int) { // {{{
+	if a+n > maxRegisters {
+		raiseCompileError(context, line, "register overflow(too many local variables or assignment targets)")
+	}
+} // }}}
+
 func compileFuncCallExpr(context *funcContext, reg int, expr *ast.FuncCallExpr, ec *expcontext) int { // {{{
 	funcreg := reg
 	argc := len(expr.Args)
@@ -1834,6 +1845,7 @@ func compileFuncCallExpr(context *funcContext, reg int, expr *ast.FuncCallExpr, 
 	if islastvararg {
 		b = 0
 	}
+	checkResultRegisters(context, funcreg, ec.varargopt+1, sline(expr))
 	context.Code.AddABC(OP_CALL, funcreg, b, ec.varargopt+2, sline(expr))
 	context.Proto.DbgCalls = append(context.Proto.DbgCalls, DbgCall{Pc: context.Code.LastPC(), Name: name})
 
